@@ -40,8 +40,9 @@ type c13slot struct {
 	tok  int  // token index
 	left bool // left or right delimiter
 	// strong-law classification
-	facesText int  // index of the adjacent text token, -1 = template boundary, -2 = faces a tag/object/opaque body
-	opaque    bool // faces a raw/comment body
+	facesText int  // index of the adjacent text token, -1 = template boundary, -2 = faces a tag/object
+	opaque    int  // 0 no; 1 faces a comment body (renders nothing: the hyphen has no effect); 2 faces a raw body
+	bodyTok   int  // for opaque == 2: the adjacent body token (its edge whitespace may or may not be stripped)
 }
 
 func runC13(c *core.Ctx) {
@@ -103,7 +104,13 @@ func runC13(c *core.Ctx) {
 					s.facesText = -1
 				case inBody[adj] || !left && t.Kind == ref.Tag && (t.Name == "raw" || t.Name == "comment") ||
 					left && t.Kind == ref.Tag && (t.Name == "endraw" || t.Name == "endcomment"):
-					s.facesText, s.opaque = -2, true
+					s.facesText, s.opaque = -3, 1
+					if strings.HasSuffix(t.Name, "raw") {
+						s.opaque, s.bodyTok = 2, -1
+						if inBody[adj] && toks[adj].Kind == ref.Text {
+							s.bodyTok = adj
+						}
+					}
 				case toks[adj].Kind == ref.Text:
 					s.facesText = adj
 				default:
@@ -137,9 +144,10 @@ func runC13(c *core.Ctx) {
 			continue
 		}
 		// build(S, transform): source with hyphens for S; or the hyphen-free source with adjacent whitespace deleted
-		build := func(mask int, transform bool) string {
+		build := func(mask int, transform bool, rawStrip int) string {
 			l, rr := make([]bool, len(toks)), make([]bool, len(toks))
 			cutSuffix, cutPrefix := make([]bool, len(toks)), make([]bool, len(toks))
+			bodyCutSuffix, bodyCutPrefix := make([]bool, len(toks)), make([]bool, len(toks))
 			for j, s := range chosen {
 				if mask&(1<<j) == 0 {
 					continue
@@ -149,10 +157,16 @@ func runC13(c *core.Ctx) {
 					if s.facesText >= 0 {
 						cutSuffix[s.facesText] = true
 					}
+					if s.opaque == 2 && s.bodyTok >= 0 && rawStrip&(1<<j) != 0 {
+						bodyCutSuffix[s.bodyTok] = true
+					}
 				} else {
 					rr[s.tok] = true
 					if s.facesText >= 0 {
 						cutPrefix[s.facesText] = true
+					}
+					if s.opaque == 2 && s.bodyTok >= 0 && rawStrip&(1<<j) != 0 {
+						bodyCutPrefix[s.bodyTok] = true
 					}
 				}
 			}
@@ -169,6 +183,14 @@ func runC13(c *core.Ctx) {
 							src = strings.TrimRightFunc(src, unicode.IsSpace)
 						}
 					}
+					if transform && inBody[ti] {
+						if bodyCutPrefix[ti] {
+							src = strings.TrimLeftFunc(src, unicode.IsSpace)
+						}
+						if bodyCutSuffix[ti] {
+							src = strings.TrimRightFunc(src, unicode.IsSpace)
+						}
+					}
 				case !transform && !inBody[ti]:
 					if l[ti] {
 						src = src[:2] + "-" + src[2:]
@@ -182,10 +204,10 @@ func runC13(c *core.Ctx) {
 			return out.String()
 		}
 		if i%97 == 3 {
-			c.Sample(map[string]any{"base": base, "slots": k, "one_subset": build((1<<k)-1, false)})
+			c.Sample(map[string]any{"base": base, "slots": k, "one_subset": build((1<<k)-1, false, 0)})
 		}
 		for mask := 1; mask < 1<<k; mask++ {
-			src := build(mask, false)
+			src := build(mask, false, 0)
 			rs := core.Run(e, src, b)
 			c.Eval(1)
 			c.Obs("weak_law_checked", 1)
@@ -218,23 +240,48 @@ func runC13(c *core.Ctx) {
 			if rs.Out != r0.Out {
 				c.Distinct(base, fmt.Sprint(mask))
 			}
-			// strong law
+			// strong law: every chosen hyphen faces literal text, the template boundary, a comment body (no effect)
+			// or a raw body (its edge whitespace may be stripped or kept: both readings of "adjacent literal text")
 			strong := true
+			var rawSlots []int
 			for j, s := range chosen {
-				if mask&(1<<j) != 0 && s.facesText == -2 {
+				if mask&(1<<j) == 0 {
+					continue
+				}
+				if s.facesText == -2 {
 					strong = false
 				}
+				if s.opaque == 2 && s.bodyTok >= 0 {
+					rawSlots = append(rawSlots, j)
+				}
 			}
-			if !strong {
+			if !strong || len(rawSlots) > 3 {
 				continue
 			}
-			tsrc := build(mask, true)
-			rt := core.Run(e, tsrc, b)
-			c.Eval(1)
 			c.Obs("strong_law_checked", 1)
-			if !rt.OK() || rt.Out != rs.Out {
-				c.Violate("strong|differs-from-whitespace-deleted-template", "with every hyphen facing literal text, the output must equal that of the template with the hyphens dropped and the adjacent whitespace deleted",
-					wit(map[string]any{"whitespace_deleted_template": tsrc, "whitespace_deleted_result": rt.Brief()}))
+			matched := false
+			var firstT core.Res
+			var firstSrc string
+			for combo := 0; combo < 1<<len(rawSlots) && !matched; combo++ {
+				rawStrip := 0
+				for bi, j := range rawSlots {
+					if combo&(1<<bi) != 0 {
+						rawStrip |= 1 << j
+					}
+				}
+				tsrc := build(mask, true, rawStrip)
+				rt := core.Run(e, tsrc, b)
+				c.Eval(1)
+				if combo == 0 {
+					firstT, firstSrc = rt, tsrc
+				}
+				if rt.OK() && rt.Out == rs.Out {
+					matched = true
+				}
+			}
+			if !matched {
+				c.Violate("strong|differs-from-whitespace-deleted-template", "with every hyphen facing literal text (or an unrendered comment body), the output must equal that of the template with the hyphens dropped and the adjacent whitespace deleted",
+					wit(map[string]any{"whitespace_deleted_template": firstSrc, "whitespace_deleted_result": firstT.Brief()}))
 				break
 			}
 		}
